@@ -163,7 +163,7 @@ theorem loop_step_probe (E : Env) (s : State) (tok : Nat) (orc : Oracle) (T : Li
       · exact fin c' hq
       · rcases hres with h | h
         · cases h
-        · simp at h; exact absurd h hne
+        · simp at h; rw [h] at hne; cases hne
   · have := C13.stale_timer_is_noop E (.probe tok) tok ⟨s, [], orc⟩ rfl hst
     rw [this]
     simp only [pure_run]
@@ -174,6 +174,54 @@ theorem loop_step_probe (E : Env) (s : State) (tok : Nat) (orc : Oracle) (T : Li
     unfold LoopOk at *
     rw [he]
     exact hinv
+
+/-- **Errors of an outstanding probe timer.** Delivering a probe timer the instance scheduled never finds it
+    "not connected" (an effective probe timer exists only while connected; a stale one is ignored): the call
+    returns `Ok`, or `IncompleteProbeCycle` — only when the previous round still has a target whose
+    SendIndirectProbe timer has not been delivered, i.e. the runtime delivered timers out of deadline order — or
+    the `Encode` error of a send. -/
+theorem outstanding_probe_timer_errors (E : Env) (s : State) (tok : Nat) (orc : Oracle) (T : List Timer)
+    (hinv : LoopOk .probe s (.probe tok :: T)) :
+    match step E s (.timer (.probe tok)) orc with
+    | .done _ _ r _ => r = .ok ∨ r = .err .encode ∨ (r = .err .incompleteProbe ∧ s.probe.validate = false)
+    | .stuck _ => True := by
+  have hc := effective_cons .probe s tok T
+  have hinv2 : effective .probe s (LoopKind.timer .probe tok :: T) = connNat s := hinv.2 rfl
+  unfold step runOp
+  simp only [bind_run]
+  by_cases hst : tok = s.token
+  · subst hst
+    have hconn : s.conn = .connected := by
+      rw [hc] at hinv2
+      unfold connNat at hinv2
+      by_cases hcn : s.conn = .connected
+      · exact hcn
+      · simp [hcn] at hinv2
+    have hht : handleTimer E (.probe s.token) ⟨s, [], orc⟩ = probeRandomMember E ⟨s, [], orc⟩ := by
+      unfold handleTimer
+      simp [hconn]
+    rw [hht]
+    have hre := probeRandomMember_rearms E ⟨s, [], orc⟩
+    unfold ProbeRound at hre
+    cases hr : probeRandomMember E ⟨s, [], orc⟩ with
+    | stuck x => trivial
+    | ok u c' => simp
+    | err e c' =>
+      rw [hr] at hre
+      simp only
+      rcases hre with ⟨he, _⟩ | ⟨he, _⟩
+      · subst he
+        right; right
+        refine ⟨rfl, ?_⟩
+        cases hv : s.probe.validate with
+        | false => rfl
+        | true =>
+          have := probeRandomMember_valid_err E ⟨s, [], orc⟩ c' _ hv hr
+          cases this
+      · subst he; exact Or.inr (Or.inl rfl)
+  · have := C13.stale_timer_is_noop E (.probe tok) tok ⟨s, [], orc⟩ rfl hst
+    rw [this]
+    simp
 
 /-- **The delivery of an outstanding timer of a periodic task** `k` (`T`: what is outstanding besides it).
     Effective and enabled: re-armed exactly once, before anything is sent. Effective but switched off by
